@@ -476,6 +476,147 @@ theorem remoteSync_inv {K : Kind} {r : Remote} {s : Schema} {i : Item} {gs ob : 
   | mi st l g h0 h1 h2 => exact remoteSync_mi (VS.mi st l g h0 h1 h2) hi hr
   | tb st q b gq gb h0 h1 h2 h3 h4 h5 => exact remoteSync_tb (VS.tb st q b gq gb h0 h1 h2 h3 h4 h5) hi hr
 
+/-! ## which syncs rebuild the limiter -/
+
+/-- a sync that does not rebuild keeps the limiter object: it returns early or resizes in place -/
+theorem remoteSync_norecreate {r r' : Remote} {s : Schema} {i : Item} (hn : remoteRecreates r s i = false)
+    (hs : remoteSync r s i = .ok r') (hr : r = {} ∨ ∃ g, r.fc = some g) :
+    ∃ g, r.fc = some g ∧ (r'.fc = some g ∨ ∃ n b, r'.fc = some (g.resize n b)) := by
+  unfold remoteRecreates at hn
+  unfold remoteSync at hs
+  simp only [] at hn hs
+  by_cases hearly : some i = r.remoteConfig ∧ some (boundByGlobalLimit s i) = r.appliedConfig
+  · rw [if_pos hearly] at hs
+    have : r' = r := (Except.ok.inj hs).symm
+    subst this
+    rcases hr with rfl | ⟨g, hg⟩
+    · simp at hearly
+    · exact ⟨g, hg, Or.inl hg⟩
+  · rw [if_neg hearly] at hn hs
+    cases hfc : r.fc with
+    | none => rw [hfc] at hn; simp at hn
+    | some g =>
+      rw [hfc] at hn hs
+      simp only [] at hn hs
+      by_cases hmis : g.inner.kind ≠ itemType i ∨ r.strategy ≠ i.strategy
+      · rw [if_pos hmis] at hn; cases hn
+      · rw [if_neg hmis] at hn hs
+        refine ⟨g, rfl, Or.inr ?_⟩
+        obtain ⟨ist, imi, itb⟩ := i
+        cases imi with
+        | some v =>
+          cases hk : g.inner.kind with
+          | mi =>
+            simp only [boundByGlobalLimit, Option.map_some, hk] at hs
+            have := Except.ok.inj hs
+            exact ⟨_, _, by rw [← this]⟩
+          | tb =>
+            cases itb with
+            | some t =>
+              simp only [boundByGlobalLimit, Option.map_some, hk] at hs
+              have := Except.ok.inj hs
+              exact ⟨_, _, by rw [← this]⟩
+            | none => simp [hk] at hn
+          | exempt => cases itb <;> simp [hk] at hn
+          | unknown => cases itb <;> simp [hk] at hn
+        | none =>
+          cases itb with
+          | none => simp at hn
+          | some t =>
+            cases hk : g.inner.kind with
+            | tb =>
+              simp only [boundByGlobalLimit, Option.map_some, Option.map_none, hk] at hs
+              have := Except.ok.inj hs
+              exact ⟨_, _, by rw [← this]⟩
+            | mi => simp [hk] at hn
+            | exempt => simp [hk] at hn
+            | unknown => simp [hk] at hn
+
+/-- a sync that rebuilds installs the limiter `newFlowControl` builds from the bounded item -/
+theorem remoteSync_recreate {r r' : Remote} {s : Schema} {i : Item} (hn : remoteRecreates r s i = true)
+    (hs : remoteSync r s i = .ok r') :
+    ∃ g', newGFC (boundByGlobalLimit s i) = .ok g' ∧ r'.fc = some g' := by
+  unfold remoteRecreates at hn
+  unfold remoteSync at hs
+  simp only [] at hn hs
+  have fresh : ∀ {x : Except String Remote},
+      x = (do let g' ← newGFC (boundByGlobalLimit s i)
+              pure { remoteConfig := some i, appliedConfig := some (boundByGlobalLimit s i), fc := some g' }) →
+      x = .ok r' → ∃ g', newGFC (boundByGlobalLimit s i) = .ok g' ∧ r'.fc = some g' := by
+    intro x hx hok
+    rw [hx] at hok
+    cases hg : newGFC (boundByGlobalLimit s i) with
+    | error e => simp [hg, bind, Except.bind] at hok
+    | ok g' =>
+      simp only [hg, bind, Except.bind, pure, Except.pure, Except.ok.injEq] at hok
+      exact ⟨g', rfl, by rw [← hok]⟩
+  by_cases hearly : some i = r.remoteConfig ∧ some (boundByGlobalLimit s i) = r.appliedConfig
+  · rw [if_pos hearly] at hn; cases hn
+  · rw [if_neg hearly] at hn hs
+    cases hfc : r.fc with
+    | none => rw [hfc] at hs; exact fresh rfl hs
+    | some g =>
+      rw [hfc] at hn hs
+      simp only [] at hn hs
+      by_cases hmis : g.inner.kind ≠ itemType i ∨ r.strategy ≠ i.strategy
+      · rw [if_pos hmis] at hs; exact fresh rfl hs
+      · rw [if_neg hmis] at hn hs
+        obtain ⟨ist, imi, itb⟩ := i
+        cases imi with
+        | some v =>
+          cases hk : g.inner.kind with
+          | mi => simp [hk] at hn
+          | tb =>
+            cases itb with
+            | some t => simp [hk] at hn
+            | none =>
+              simp only [boundByGlobalLimit, Option.map_some, Option.map_none, hk] at hs
+              exact fresh rfl hs
+          | exempt =>
+            cases itb <;> simp only [boundByGlobalLimit, Option.map_some, Option.map_none, hk] at hs <;> exact fresh rfl hs
+          | unknown =>
+            cases itb <;> simp only [boundByGlobalLimit, Option.map_some, Option.map_none, hk] at hs <;> exact fresh rfl hs
+        | none =>
+          cases itb with
+          | none =>
+            cases hk : g.inner.kind <;>
+              simp only [boundByGlobalLimit, Option.map_none, hk] at hs <;> exact fresh rfl hs
+          | some t =>
+            cases hk : g.inner.kind with
+            | tb => simp [hk] at hn
+            | mi => simp only [boundByGlobalLimit, Option.map_some, Option.map_none, hk] at hs; exact fresh rfl hs
+            | exempt => simp only [boundByGlobalLimit, Option.map_some, Option.map_none, hk] at hs; exact fresh rfl hs
+            | unknown => simp only [boundByGlobalLimit, Option.map_some, Option.map_none, hk] at hs; exact fresh rfl hs
+
+/-- a freshly built token-bucket count wrapper has no tokens being acquired -/
+theorem newGFC_tbw_fresh {ap : Item} {w : TBW} (h : newGFC ap = .ok (.tbw w)) : w.tokenInflight = 0 := by
+  unfold newGFC at h
+  cases hl : newLim (toSchema ap) with
+  | error e => simp [hl, bind, Except.bind] at h
+  | ok fc =>
+    simp only [hl, bind, Except.bind, newCounter] at h
+    split at h
+    · cases h
+    · split at h
+      · split at h <;> cases h
+      · split at h
+        · have := Except.ok.inj h
+          injection this with hw
+          rw [← hw]
+          simp only [TBW.resize]
+          split <;> rfl
+        · cases h
+
+theorem resize_wkind (g : GFC) (n b : Int) : (match g.resize n b with | .empty _ => 1 | .miw _ => 2 | .tbw _ => 3)
+    = (match g with | .empty _ => 1 | .miw _ => 2 | .tbw _ => (3 : Nat)) := by
+  cases g <;> rfl
+
+theorem resize_tokenInflight (w : TBW) (n b : Int) : ∃ w', GFC.resize (.tbw w) n b = .tbw w' ∧
+    w'.tokenInflight = w.tokenInflight := by
+  refine ⟨(w.resize n b).1, rfl, ?_⟩
+  simp only [TBW.resize]
+  split <;> rfl
+
 /-! ## acquire results -/
 
 theorem nonAccept_range {limit wmax : Int} (h : 0 ≤ wmax) :
@@ -1177,6 +1318,62 @@ theorem observe_unavail_noremote {cfg : Cfg} {st : State} {c : Cache} (hc : st.c
     (observe cfg st).unavail = false := by
   rw [observe_unavail]; simp [gfcOf, hc, hr]
 
+theorem flagOf_noremote {c : Cache} (h : Handle) (hr : c.remote = none) : flagOf c h = false := by
+  simp [flagOf, hr]
+
+theorem heldOf_noremote {c : Cache} (hs : List Handle) (hr : c.remote = none) :
+    heldOf (some c) hs = hs.map fun h => (h.id, false) := by
+  simp [heldOf, flagOf_noremote _ hr]
+
+theorem flagOf_congr {c c' : Cache} (h : Handle) (hf : c'.fl = c.fl) (hr : c'.remote.isSome = c.remote.isSome) :
+    flagOf c' h = flagOf c h := by
+  simp [flagOf, hf, hr]
+
+theorem heldOf_congr {c c' : Cache} (hs : List Handle) (hf : c'.fl = c.fl) (hr : c'.remote.isSome = c.remote.isSome) :
+    heldOf (some c') hs = heldOf (some c) hs := by
+  simp only [heldOf]
+  apply List.map_congr_left
+  intro h _
+  rw [flagOf_congr h hf hr]
+
+theorem countP_flagOf_congr {c c' : Cache} (hs : List Handle) (hf : c'.fl = c.fl)
+    (hr : c'.remote.isSome = c.remote.isSome) : hs.countP (flagOf c') = hs.countP (flagOf c) := by
+  apply List.countP_congr
+  intro h _
+  rw [flagOf_congr h hf hr]
+
+theorem localRecreates_VS {K : Kind} {l : Local} {old s : Schema} (ho : VS K old) (hs : VS K s)
+    (hc : l.config = old) (hf : l.fc = some (limOf old)) : localRecreates l s = false := by
+  simp only [localRecreates, hf, VS_limOf_kind ho, VS_guess hs]
+  simp
+
+/-- the parts of `FlInv` that do not depend on the cache's limiters -/
+theorem flInv_cache {cfg : Cfg} {st st' : State} {m m' : Mon} {c c' : Cache} (h : FlInv cfg st m)
+    (hc : st.cache = some c) (hc' : st'.cache = some c') (hh : st'.handles = st.handles) (hv : st'.cfgv = st.cfgv)
+    (hfl : c'.fl = c.fl) (hrs : c'.remote.isSome = c.remote.isSome)
+    (happ : ∀ r, c'.remote = some r → m'.applied = r.appliedConfig)
+    (howed : ∀ w, gfcOf st' = some (.tbw w) → w.tokenInflight = m'.owed)
+    (hmust : m'.mustEvent = true → ∃ g, gfcOf st' = some g ∧ GFC.wkind g ≠ 1 ∧ c'.cnt.event = true)
+    (e4 : m'.held = m.held) (e5 : m'.tainted = m.tainted) : FlInv cfg st' m' := by
+  refine ⟨by rw [hv]; exact h.cfgv, ?_, howed, ?_, ?_, by rw [hh]; exact h.nodup, ?_, ?_, ?_⟩
+  · intro x r a b
+    have : x = c' := by rw [hc'] at a; exact (Option.some.inj a).symm
+    subst this; exact happ r b
+  · intro a
+    obtain ⟨g, g1, g2, g3⟩ := hmust a
+    exact ⟨c', g, hc', g1, g2, g3⟩
+  · rw [e4, h.held, hc, hc', hh, heldOf_congr _ hfl hrs]
+  · intro x a
+    have : x = c' := by rw [hc'] at a; exact (Option.some.inj a).symm
+    subst this; rw [hh, hfl]; exact h.gens c hc
+  · intro a; rw [hc'] at a; cases a
+  · intro a x b
+    have : x = c' := by rw [hc'] at b; exact (Option.some.inj b).symm
+    subst this
+    obtain ⟨k1, k2⟩ := h.cur (by rw [← e5]; exact a) c hc
+    rw [hh, hfl, countP_flagOf_congr _ hfl hrs, hrs]
+    exact ⟨k1, k2⟩
+
 theorem step_schema {K : Kind} {cfg : Cfg} {st : State} {m : Mon} (hi : Inv K cfg st m) (s : Schema) (hs : VS K s) :
     StepOK K cfg st m (.schema s) := by
   have hc := hi.cache
@@ -1191,7 +1388,7 @@ theorem step_schema {K : Kind} {cfg : Cfg} {st : State} {m : Mon} (hi : Inv K cf
       · simp [step, hcache, VS_newLim hs]
       · have hun := observe_unavail_noremote (cfg := cfg)
           (st := { st with cache := some { loc := { config := s, fc := some (limOf s) }, remote := none } }) rfl rfl
-        refine ⟨?_, hi.meterOK, ?_, ?_, rfl, ?_, ?_, ?_, ?_, ?_, ?_⟩
+        refine ⟨?_, hi.meterOK, ?_, ?_, rfl, ?_, ?_, ?_, ?_, ?_, ?_, ?_⟩
         · simp [Mon.next]; exact hi.meter
         · simp [Mon.next]; exact hi.shards
         · simp [Mon.next, leaderChange]; exact hi.hb
@@ -1209,6 +1406,31 @@ theorem step_schema {K : Kind} {cfg : Cfg} {st : State} {m : Mon} (hi : Inv K cf
             have : x = { loc := { config := s, fc := some (limOf s) }, remote := none } := by simpa using hx.symm
             subst this
             simp at he
+        · -- requests in flight: all of them hold the system default limiter
+          have hnone : st.cache = none := hcache
+          have hst : stopsRemote m (.schema s) = false := by simp [stopsRemote, hsch]
+          have hrb : rebuilds m (.schema s) = false := by simp [rebuilds, effective]
+          refine ⟨hi.fl.cfgv, ?_, ?_, ?_, ?_, hi.fl.nodup, ?_, fun h => (by cases h), ?_⟩
+          · intro x r hx hr
+            have : x = { loc := { config := s, fc := some (limOf s) }, remote := none } := by simpa using hx.symm
+            subst this; cases hr
+          · intro w hw; simp [gfcOf] at hw
+          · intro hm
+            simp only [Mon.next, hrb, hst] at hm
+            obtain ⟨c, g, k1, _⟩ := hi.fl.must (by simpa using hm)
+            rw [hnone] at k1; cases k1
+          · simp only [Mon.next, hrb, hst, Bool.or_self, Bool.false_eq_true, if_false]
+            rw [hi.fl.held, hnone, heldOf_noremote _ rfl]; rfl
+          · intro x hx h hh hside
+            have := hi.fl.nocache hnone h hh
+            rw [this] at hside; cases hside
+          · intro _ x hx
+            have : x = { loc := { config := s, fc := some (limOf s) }, remote := none } := by simpa using hx.symm
+            subst this
+            refine ⟨?_, fun h _ _ _ hr => (by cases hr)⟩
+            have : st.handles.countP (flagOf { loc := { config := s, fc := some (limOf s) }, remote := none }) = 0 := by
+              rw [List.countP_eq_zero]; intro h _; simp [flagOf]
+            simp [this]
   | some c =>
     cases hsch : m.schema with
     | none => rw [hcache, hsch] at hc; exact hc.elim
@@ -1216,14 +1438,15 @@ theorem step_schema {K : Kind} {cfg : Cfg} {st : State} {m : Mon} (hi : Inv K cf
       rw [hcache, hsch] at hc
       obtain ⟨h1, h2, h3, h4, h5⟩ := hc
       have hls := localSync_VS h2 hs h1 h3
+      have hlr := localRecreates_VS h2 hs h1 h3
       by_cases hstop : (decide (s ≠ old) && !enableGlobal s) = true
       · -- the remote wrapper is stopped
         refine ⟨{ st with cache := some { c with loc := { config := s, fc := some (limOf s) }, remote := none } }, ?_, ?_, rfl⟩
-        · simp only [step, hcache, hls, hstop]; rfl
+        · simp only [step, hcache, hls, hstop, hlr]; rfl
         · have hun := observe_unavail_noremote (cfg := cfg)
             (st := { st with cache := some { c with loc := { config := s, fc := some (limOf s) }, remote := none } }) rfl rfl
           simp only [Bool.and_eq_true, decide_eq_true_eq, Bool.not_eq_true'] at hstop
-          refine ⟨?_, hi.meterOK, ?_, ?_, rfl, ?_, ?_, ?_, ?_, ?_, ?_⟩
+          refine ⟨?_, hi.meterOK, ?_, ?_, rfl, ?_, ?_, ?_, ?_, ?_, ?_, ?_⟩
           · simp [Mon.next]; exact hi.meter
           · simp [Mon.next]; exact hi.shards
           · simp [Mon.next, leaderChange]; exact hi.hb
@@ -1234,10 +1457,42 @@ theorem step_schema {K : Kind} {cfg : Cfg} {st : State} {m : Mon} (hi : Inv K cf
           · simp [Mon.next, leaderChange]; exact hi.leader
           · exact cntInv_cache hi.cnt hcache rfl rfl (by simp [Mon.next]; exact hi.cnt.clock) (by simp [Mon.next, effective])
               (by simp [Mon.next])
+          · -- the remote wrapper is gone: no request counts against it any more
+            have hst : stopsRemote m (.schema s) = true := by
+              simp [stopsRemote, hsch, hstop.1, hstop.2, VS_guess hs, VS_guess h2]
+            refine ⟨hi.fl.cfgv, ?_, ?_, ?_, ?_, hi.fl.nodup, ?_, fun h => (by cases h), ?_⟩
+            · intro x r hx hr
+              have : x = { c with loc := { config := s, fc := some (limOf s) }, remote := none } := by simpa using hx.symm
+              subst this; cases hr
+            · intro w hw; simp [gfcOf] at hw
+            · intro hm; simp [Mon.next, hst] at hm
+            · simp only [Mon.next, hst, Bool.or_true, if_true]
+              rw [hi.fl.held, hcache, heldOf_noremote (c := { c with loc := { config := s, fc := some (limOf s) }, remote := none }) _ rfl]
+              simp [heldOf]
+            · intro x hx
+              have : x = { c with loc := { config := s, fc := some (limOf s) }, remote := none } := by simpa using hx.symm
+              subst this; exact hi.fl.gens c hcache
+            · intro ht x hx
+              have : x = { c with loc := { config := s, fc := some (limOf s) }, remote := none } := by simpa using hx.symm
+              subst this
+              simp only [Mon.next, hst, Bool.or_true, Bool.true_and, Bool.or_eq_false_iff] at ht
+              refine ⟨?_, fun h _ _ _ hr => (by cases hr)⟩
+              have hz : st.handles.countP (flagOf { c with loc := { config := s, fc := some (limOf s) }, remote := none }) = 0 := by
+                rw [List.countP_eq_zero]; intro h _; simp [flagOf]
+              rw [hz]
+              obtain ⟨k1, _⟩ := hi.fl.cur ht.1 c hcache
+              have hany : (heldOf (some c) st.handles).any (·.2) = false := by rw [← hcache, ← hi.fl.held]; exact ht.2
+              have : st.handles.countP (flagOf c) = 0 := by
+                rw [← heldOf_countP, List.countP_eq_zero]
+                intro e he
+                have := List.any_eq_false.1 hany e he
+                simpa using this
+              show c.fl.remCount = _
+              rw [k1, this]
       · -- nothing else changes
         have hstop' : (decide (s ≠ old) && !enableGlobal s) = false := by simpa using hstop
         refine ⟨{ st with cache := some { c with loc := { config := s, fc := some (limOf s) }, remote := c.remote } }, ?_, ?_, rfl⟩
-        · simp only [step, hcache, hls, hstop']; rfl
+        · simp only [step, hcache, hls, hstop', hlr]; rfl
         · have hg : gfcOf { st with cache := some { c with loc := { config := s, fc := some (limOf s) }, remote := c.remote } }
               = gfcOf st := by simp [gfcOf, hcache]
           have hun : (observe cfg { st with cache := some { c with loc := { config := s, fc := some (limOf s) }, remote := c.remote } }).unavail
@@ -1251,7 +1506,7 @@ theorem step_schema {K : Kind} {cfg : Cfg} {st : State} {m : Mon} (hi : Inv K cf
             rcases hstop' with h | h
             · simp [h]
             · simp [h]
-          refine ⟨?_, hi.meterOK, ?_, ?_, rfl, ?_, ?_, ?_, ?_, ?_, ?_⟩
+          refine ⟨?_, hi.meterOK, ?_, ?_, rfl, ?_, ?_, ?_, ?_, ?_, ?_, ?_⟩
           · simp [Mon.next]; exact hi.meter
           · simp [Mon.next]; exact hi.shards
           · simp [Mon.next, leaderChange]; exact hi.hb
@@ -1266,20 +1521,43 @@ theorem step_schema {K : Kind} {cfg : Cfg} {st : State} {m : Mon} (hi : Inv K cf
           · simp [Mon.next, leaderChange]; exact hi.leader
           · exact cntInv_cache hi.cnt hcache rfl rfl (by simp [Mon.next]; exact hi.cnt.clock) (by simp [Mon.next, effective])
               (by simp [Mon.next])
+          · have hst : stopsRemote m (.schema s) = false := by
+              simp only [stopsRemote, hsch]
+              simp only [Bool.and_eq_false_iff, decide_eq_false_iff_not, Bool.not_eq_false'] at hstop'
+              rcases hstop' with h | h
+              · simp [h]
+              · simp [h]
+            have hrb : rebuilds m (.schema s) = false := by simp [rebuilds, effective]
+            refine flInv_cache (c' := { c with loc := { config := s, fc := some (limOf s) }, remote := c.remote })
+              (st' := { st with cache := some { c with loc := { config := s, fc := some (limOf s) }, remote := c.remote } })
+              hi.fl hcache rfl rfl rfl rfl rfl ?_ ?_ ?_ ?_ ?_
+            · intro r hr; simp only [Mon.next, effective, Bool.false_eq_true, if_false]; exact hi.fl.applied c r hcache hr
+            · intro w hw
+              simp only [Mon.next, hrb, hst, Bool.or_self, Bool.false_eq_true, if_false]
+              have := hi.fl.owed w (by rw [← hg]; exact hw)
+              split <;> exact this
+            · intro hm
+              simp only [Mon.next, hrb, hst] at hm
+              obtain ⟨c0, g, k1, k2, k3, k4⟩ := hi.fl.must (by simpa using hm)
+              have : c0 = c := by rw [hcache] at k1; exact (Option.some.inj k1).symm
+              subst this
+              exact ⟨g, by rw [hg]; exact k2, k3, k4⟩
+            · simp [Mon.next, hrb, hst]
+            · simp [Mon.next, hrb, hst]
 
 /-- an effective sync of the remote limiter (reconcile of a global-count schema, or an answer of the schema's type) -/
 theorem inv_of_sync {K : Kind} {cfg : Cfg} {st : State} {m : Mon} {c : Cache} {s : Schema} (hi : Inv K cfg st m)
-    (hcache : st.cache = some c) (hsch : m.schema = some s) (i : Item) (hT : itemType i = K) (cnt' : Counter) :
+    (hcache : st.cache = some c) (hsch : m.schema = some s) (i : Item) (hT : itemType i = K) (cnt' : Counter) (fl' : Flight) :
     ∃ r' g', remoteSync (c.remote.getD {}) c.loc.config i = .ok r' ∧ r'.fc = some g' ∧
       r'.appliedConfig = some (boundByGlobalLimit s i) ∧ GInv g' (boundByGlobalLimit s i) (obAfter m.ob (globalOf s) g'.unavail) ∧
       ∀ m' : Mon, m'.schema = some s → m'.synced = true → m'.gs = globalOf s →
-        m'.ob = (if (observe cfg { st with cache := some { c with remote := some r', cnt := cnt' } }).unavail
+        m'.ob = (if (observe cfg { st with cache := some { c with remote := some r', cnt := cnt', fl := fl' } }).unavail
                   then m.ob.sup (globalOf s) else globalOf s) →
-        m'.prev = observe cfg { st with cache := some { c with remote := some r', cnt := cnt' } } →
+        m'.prev = observe cfg { st with cache := some { c with remote := some r', cnt := cnt', fl := fl' } } →
         m'.meter = st.meter → m'.shards = st.shardCount → m'.hist = m.hist → m'.leader = st.leader →
-        CntInv { st with cache := some { c with remote := some r', cnt := cnt' } } m' →
-        FlInv cfg { st with cache := some { c with remote := some r', cnt := cnt' } } m' →
-        Inv K cfg { st with cache := some { c with remote := some r', cnt := cnt' } } m' := by
+        CntInv { st with cache := some { c with remote := some r', cnt := cnt', fl := fl' } } m' →
+        FlInv cfg { st with cache := some { c with remote := some r', cnt := cnt', fl := fl' } } m' →
+        Inv K cfg { st with cache := some { c with remote := some r', cnt := cnt', fl := fl' } } m' := by
   have hc := hi.cache
   unfold CInv at hc
   rw [hcache, hsch] at hc
@@ -1296,8 +1574,8 @@ theorem inv_of_sync {K : Kind} {cfg : Cfg} {st : State} {m : Mon} {c : Cache} {s
   subst eg ea
   refine ⟨r', g0, e1, e2, e3, q6, ?_⟩
   intro m' m1 m2 m3 m4 m5 m6 m7 m8 m9 m10 m11
-  have hg : gfcOf { st with cache := some { c with remote := some r', cnt := cnt' } } = some g0 := by simp [gfcOf, e2]
-  have hun : (observe cfg { st with cache := some { c with remote := some r', cnt := cnt' } }).unavail = g0.unavail := by
+  have hg : gfcOf { st with cache := some { c with remote := some r', cnt := cnt', fl := fl' } } = some g0 := by simp [gfcOf, e2]
+  have hun : (observe cfg { st with cache := some { c with remote := some r', cnt := cnt', fl := fl' } }).unavail = g0.unavail := by
     rw [observe_unavail, hg]; rfl
   rw [hun] at m4
   have hob : m'.ob = obAfter m.ob (globalOf s) g0.unavail := by rw [m4]; rfl
@@ -1329,6 +1607,8 @@ def quietOp : Op → Bool
   | .hb _ _ false => false
   | .sync _ _ _ _ => false
   | .event => false
+  | .acquire _ => false
+  | .release _ => false
   | _ => true
 
 /-- an operation that changes nothing at all -/
@@ -1340,7 +1620,76 @@ theorem step_noop {K : Kind} {cfg : Cfg} {st : State} {m : Mon} (hi : Inv K cfg 
       (m.next op (observe cfg st)).synced = (m.synced || effective m op) ∧
       (m.next op (observe cfg st)).leader = m.leader)
     (hj : judgeTrans m op (observe cfg st) = [])
-    (hq : quietOp op = true := by rfl) : StepOK K cfg st m op := by
+    (hq : quietOp op = true := by rfl)
+    (hsl : ∀ r, op = .setLimit r → (observe cfg st).wkind = 0 := by intro r h; cases h) : StepOK K cfg st m op := by
+  have hrb : rebuilds m op = false := by simp [rebuilds, heff]
+  have hst : stopsRemote m op = false := by
+    cases op with
+    | schema s0 =>
+      -- a schema sync that changes nothing is the same schema again
+      cases hs : m.schema with
+      | none => simp [stopsRemote, hs]
+      | some old =>
+        have h1 := e_schema
+        simp only [Mon.next, hs] at h1
+        have : s0 = old := Option.some.inj h1
+        simp [stopsRemote, hs, this]
+    | tick _ _ => rfl
+    | acquire _ => rfl
+    | release _ => rfl
+    | event => rfl
+    | setLimit _ => rfl
+    | hb _ _ _ => rfl
+    | sync _ _ _ _ => rfl
+    | shards _ => rfl
+    | reconcileCount => rfl
+    | answer _ _ => rfl
+    | meter _ => rfl
+  have hfl : FlInv cfg st (m.next op (observe cfg st)) := by
+    apply flInv_frame hi.fl rfl rfl rfl
+    · simp [Mon.next, heff]
+    · cases op with
+      | tick _ _ => simp [quietOp] at hq
+      | acquire _ => simp [quietOp] at hq
+      | release _ => simp [quietOp] at hq
+      | event => simp [quietOp] at hq
+      | setLimit r =>
+        have := hsl r rfl
+        simp [Mon.next, hrb, hst, hi.prev, this]
+      | schema _ => simp [Mon.next, hrb, hst]
+      | hb _ _ _ => simp [Mon.next, hrb, hst]
+      | sync _ _ _ _ => simp [Mon.next, hrb, hst]
+      | shards _ => simp [Mon.next, hrb, hst]
+      | reconcileCount => simp [Mon.next, hrb, hst]
+      | answer _ _ => simp [Mon.next, hrb, hst]
+      | meter _ => simp [Mon.next, hrb, hst]
+    · cases op with
+      | tick _ _ => simp [quietOp] at hq
+      | event => simp [quietOp] at hq
+      | acquire _ => simp [quietOp] at hq
+      | release _ => simp [quietOp] at hq
+      | setLimit _ => simp [Mon.next, hrb, hst]
+      | schema _ => simp [Mon.next, hrb, hst]
+      | hb _ _ _ => simp [Mon.next, hrb, hst]
+      | sync _ _ _ _ => simp [Mon.next, hrb, hst]
+      | shards _ => simp [Mon.next, hrb, hst]
+      | reconcileCount => simp [Mon.next, hrb, hst]
+      | answer _ _ => simp [Mon.next, hrb, hst]
+      | meter _ => simp [Mon.next, hrb, hst]
+    · cases op with
+      | acquire _ => simp [quietOp] at hq
+      | release _ => simp [quietOp] at hq
+      | tick _ _ => simp [Mon.next, hrb, hst]
+      | event => simp [Mon.next, hrb, hst]
+      | setLimit _ => simp [Mon.next, hrb, hst]
+      | schema _ => simp [Mon.next, hrb, hst]
+      | hb _ _ _ => simp [Mon.next, hrb, hst]
+      | sync _ _ _ _ => simp [Mon.next, hrb, hst]
+      | shards _ => simp [Mon.next, hrb, hst]
+      | reconcileCount => simp [Mon.next, hrb, hst]
+      | answer _ _ => simp [Mon.next, hrb, hst]
+      | meter _ => simp [Mon.next, hrb, hst]
+    · simp [Mon.next, hrb, hst]
   have hcnt : CntInv st (m.next op (observe cfg st)) := by
     apply cntInv_frame hi.cnt rfl
     · cases op with
@@ -1348,6 +1697,8 @@ theorem step_noop {K : Kind} {cfg : Cfg} {st : State} {m : Mon} (hi : Inv K cfg 
       | sync _ _ _ _ => simp [quietOp] at hq
       | tick _ _ => simp [quietOp] at hq
       | event => simp [quietOp] at hq
+      | acquire _ => simp [quietOp] at hq
+      | release _ => simp [quietOp] at hq
       | schema _ => exact hi.cnt.clock
       | shards _ => exact hi.cnt.clock
       | reconcileCount => exact hi.cnt.clock
@@ -1356,6 +1707,8 @@ theorem step_noop {K : Kind} {cfg : Cfg} {st : State} {m : Mon} (hi : Inv K cfg 
       | setLimit _ => exact hi.cnt.clock
     · cases op with
       | tick _ _ => simp [quietOp] at hq
+      | acquire _ => simp [quietOp] at hq
+      | release _ => simp [quietOp] at hq
       | hb _ _ _ => simp [Mon.next, heff]
       | sync _ _ _ _ => simp [Mon.next, heff]
       | event => simp [Mon.next, heff]
@@ -1368,6 +1721,8 @@ theorem step_noop {K : Kind} {cfg : Cfg} {st : State} {m : Mon} (hi : Inv K cfg 
     · cases op with
       | tick _ _ => simp [quietOp] at hq
       | event => simp [quietOp] at hq
+      | acquire _ => simp [quietOp] at hq
+      | release _ => simp [quietOp] at hq
       | hb _ _ _ => rfl
       | sync _ _ _ _ => rfl
       | schema _ => rfl
@@ -1390,10 +1745,221 @@ theorem step_noop {K : Kind} {cfg : Cfg} {st : State} {m : Mon} (hi : Inv K cfg 
   · rw [e_rest.2.2.1]; exact hi.hb
   · rw [e_rest.2.2.2.2]; exact hi.leader
   · exact hcnt
+  · exact hfl
 
 theorem VS_globalItem {K : Kind} {s : Schema} (h : VS K s) :
     itemType { strategy := s.strategy, mi := s.gmi, tb := s.gtb } = K := by
   cases h <;> rfl
+
+theorem observe_remoteConfig (cfg : Cfg) (st : State) :
+    (observe cfg st).remoteConfig = st.cache.bind (fun c => c.remote.bind (·.remoteConfig)) := by
+  simp only [observe]
+  cases h : (st.cache.bind fun c => c.remote.bind (·.fc)) with
+  | none => rfl
+  | some g => cases g <;> rfl
+
+/-- **the spec of "which syncs rebuild" is what the model does**: for an effective sync with item `i`, the monitor's
+    `rebuilds` (no limiter yet, another type, another strategy — and not a repetition) is exactly `remoteRecreates` -/
+theorem rebuilds_eq {K : Kind} {cfg : Cfg} {st : State} {m : Mon} {c : Cache} {s : Schema} {op : Op} {i : Item}
+    (hi : Inv K cfg st m) (hcache : st.cache = some c) (hsch : m.schema = some s) (heff : effective m op = true)
+    (hitem : syncItem m op = some i) (hT : itemType i = K) :
+    rebuilds m op = remoteRecreates (c.remote.getD {}) s i := by
+  have hc := hi.cache
+  unfold CInv at hc
+  rw [hcache, hsch] at hc
+  obtain ⟨h1, h2, h3, h4, h5⟩ := hc
+  have hK := VS_kind h2
+  simp only [rebuilds, heff, hitem, hsch, Bool.true_and, hi.prev, observe_remoteConfig, observe_wkind, observe_rlim]
+  cases hrm : c.remote with
+  | none =>
+    have hg : gfcOf st = none := by simp [gfcOf, hcache, hrm]
+    simp [hcache, hrm, hg, remoteRecreates]
+  | some r =>
+    obtain ⟨i0, ap0, g, q1, q2, q3, q4, q5, q6, q7⟩ := h5 r hrm
+    have hg : gfcOf st = some g := by simp [gfcOf, hcache, hrm, q3]
+    have happ := hi.fl.applied c r hcache hrm
+    have hwk : GFC.wkind g ≠ 0 := by cases g <;> simp [GFC.wkind]
+    simp only [hcache, hrm, hg, Option.bind_some, Option.getD_some, q1, happ, q2, Option.map_some, Option.getD_some,
+      remoteRecreates, q3, Remote.strategy]
+    by_cases hearly : some i = some i0 ∧ some (boundByGlobalLimit s i) = some ap0
+    · have e1 : i0 = i := by have := hearly.1; simpa using this.symm
+      have e2 : ap0 = boundByGlobalLimit s i := by have := hearly.2; simpa using this.symm
+      subst e1 e2
+      simp
+    · rw [if_neg hearly]
+      have hne : ¬ (some i0 = some i ∧ some ap0 = some (boundByGlobalLimit s i)) := by
+        intro h; exact hearly ⟨h.1.symm, h.2.symm⟩
+      by_cases hmis : g.inner.kind ≠ itemType i ∨ i0.strategy ≠ i.strategy
+      · rw [if_pos hmis]
+        rcases hmis with h | h
+        · simp [hne, hwk, h, q1]
+          by_cases a : i0 = i
+          · right; intro b; exact hne ⟨congrArg some a, congrArg some b⟩
+          · left; exact a
+        · simp [hne, hwk, h, q1]
+          by_cases a : i0 = i
+          · right; intro b; exact hne ⟨congrArg some a, congrArg some b⟩
+          · left; exact a
+      · rw [if_neg hmis]
+        have hk : g.inner.kind = itemType i := by false_or_by_contra; exact hmis (Or.inl ‹_›)
+        have hst : i0.strategy = i.strategy := by false_or_by_contra; exact hmis (Or.inr ‹_›)
+        have hres : (if i.mi.isSome = true ∧ g.inner.kind = Kind.mi then false
+            else if i.tb.isSome = true ∧ g.inner.kind = Kind.tb then false else true) = false := by
+          rw [hk]
+          obtain ⟨ist, imi, itb⟩ := i
+          rcases hK with rfl | rfl
+          · cases imi <;> simp [itemType] at hT ⊢
+            cases itb <;> simp at hT
+          · cases imi with
+            | some v => simp [itemType] at hT
+            | none => cases itb <;> simp [itemType] at hT ⊢
+        rw [hres]
+        simp [hwk, hk, hst, q1]
+
+theorem wkind_resize (g : GFC) (n b : Int) : GFC.wkind (g.resize n b) = GFC.wkind g := by
+  cases g <;> rfl
+
+/-- `FlInv` after an effective sync: a rebuild empties the bucket, resets the token accounting and the counter, and no
+    request counts against the new limiter; a resize keeps everything -/
+theorem flInv_sync {K : Kind} {cfg : Cfg} {st : State} {m : Mon} {c : Cache} {s : Schema} {op : Op} {i : Item}
+    {r' : Remote} {cnt' : Counter} (o : Obs) (hi : Inv K cfg st m) (hcache : st.cache = some c)
+    (hsch : m.schema = some s) (heff : effective m op = true) (hitem : syncItem m op = some i) (hT : itemType i = K)
+    (hop : op = .reconcileCount ∨ ∃ item, op = .answer true item)
+    (hrs : remoteSync (c.remote.getD {}) s i = .ok r') (happ : r'.appliedConfig = some (boundByGlobalLimit s i))
+    (hcnt : cnt' = if remoteRecreates (c.remote.getD {}) s i then { event := false, lastSync := unixS st.clock } else c.cnt) :
+    FlInv cfg { st with cache := some { c with remote := some r', cnt := cnt',
+        fl := flightAfterSync c.fl c.remote.isNone (remoteRecreates (c.remote.getD {}) s i) } } (m.next op o) := by
+  have hrb := rebuilds_eq hi hcache hsch heff hitem hT
+  have hst : stopsRemote m op = false := by rcases hop with rfl | ⟨item, rfl⟩ <;> rfl
+  have hc := hi.cache
+  unfold CInv at hc
+  rw [hcache, hsch] at hc
+  obtain ⟨h1, h2, h3, h4, h5⟩ := hc
+  have hrr : c.remote.getD {} = {} ∨ ∃ g, (c.remote.getD {}).fc = some g := by
+    cases hrm : c.remote with
+    | none => exact Or.inl rfl
+    | some r =>
+      obtain ⟨_, _, g, _, _, q3, _⟩ := h5 r hrm
+      exact Or.inr ⟨g, q3⟩
+  -- the monitor's fields after the operation
+  have mapp : (m.next op o).applied = some (boundByGlobalLimit s i) := by
+    rcases hop with rfl | ⟨item, rfl⟩ <;> simp [Mon.next, heff, hitem, hsch]
+  have mowed : (m.next op o).owed = if remoteRecreates (c.remote.getD {}) s i then 0 else m.owed := by
+    rcases hop with rfl | ⟨item, rfl⟩ <;> simp [Mon.next, hrb, hst] <;> (intro _; split <;> rfl)
+  have mmust : (m.next op o).mustEvent = (m.mustEvent && !remoteRecreates (c.remote.getD {}) s i) := by
+    rcases hop with rfl | ⟨item, rfl⟩ <;> simp [Mon.next, hrb, hst]
+  have mheld : (m.next op o).held = if remoteRecreates (c.remote.getD {}) s i then m.held.map (fun h => (h.1, false))
+      else m.held := by
+    rcases hop with rfl | ⟨item, rfl⟩ <;> simp [Mon.next, hrb, hst]
+  have mtaint : (m.next op o).tainted = (m.tainted || (remoteRecreates (c.remote.getD {}) s i && m.held.any (·.2))) := by
+    rcases hop with rfl | ⟨item, rfl⟩ <;> simp [Mon.next, hrb, hst]
+  cases hrc : remoteRecreates (c.remote.getD {}) s i with
+  | false =>
+    -- resized in place (or nothing at all): the remote wrapper existed, nothing moves
+    obtain ⟨g, hg1, hg2⟩ := remoteSync_norecreate hrc hrs hrr
+    have hsome : c.remote.isSome = true := by
+      cases hrm : c.remote with
+      | none => rw [hrm] at hg1; simp at hg1
+      | some r => rfl
+    have hfl : flightAfterSync c.fl c.remote.isNone false = c.fl := by
+      simp [flightAfterSync, hsome]
+    rw [hrc] at mowed mmust mheld mtaint hcnt
+    simp only [Bool.false_eq_true, if_false, Bool.not_false, Bool.and_true, Bool.false_and, Bool.or_false] at mowed mmust mheld mtaint hcnt
+    rw [hfl]
+    have hgf : gfcOf st = some g := by
+      cases hrm : c.remote with
+      | none => rw [hrm] at hsome; cases hsome
+      | some r => rw [hrm] at hg1; simp [gfcOf, hcache, hrm]; exact hg1
+    refine flInv_cache (c' := { c with remote := some r', cnt := cnt', fl := c.fl }) hi.fl hcache rfl rfl rfl rfl
+      (by simp [hsome]) ?_ ?_ ?_ mheld mtaint
+    · intro r hr
+      have : r = r' := by simpa using hr.symm
+      subst this; rw [mapp, happ]
+    · intro w hw
+      rw [mowed]
+      have hw' : r'.fc = some (.tbw w) := by simpa [gfcOf] using hw
+      rcases hg2 with h | ⟨n, b, h⟩
+      · rw [h] at hw'
+        have : g = .tbw w := Option.some.inj hw'
+        subst this; exact hi.fl.owed w hgf
+      · rw [h] at hw'
+        cases g with
+        | tbw w0 =>
+          obtain ⟨w1, e1, e2⟩ := resize_tokenInflight w0 n b
+          rw [e1] at hw'
+          have : w1 = w := by simpa using hw'
+          subst this; rw [e2]; exact hi.fl.owed w0 hgf
+        | empty l => simp [GFC.resize] at hw'
+        | miw w0 => simp [GFC.resize] at hw'
+    · intro hm
+      rw [mmust] at hm
+      obtain ⟨c0, g0, k1, k2, k3, k4⟩ := hi.fl.must hm
+      have : c0 = c := by rw [hcache] at k1; exact (Option.some.inj k1).symm
+      subst this
+      have : g0 = g := by rw [hgf] at k2; exact (Option.some.inj k2).symm
+      subst this
+      rcases hg2 with h | ⟨n, b, h⟩
+      · exact ⟨g0, by simp [gfcOf, h], k3, by rw [hcnt]; exact k4⟩
+      · exact ⟨g0.resize n b, by simp [gfcOf, h], by rw [wkind_resize]; exact k3, by rw [hcnt]; exact k4⟩
+  | true =>
+    -- rebuilt: a new limiter with an empty bucket, a new counter
+    obtain ⟨g', hg1, hg2⟩ := remoteSync_recreate hrc hrs
+    rw [hrc] at mowed mmust mheld mtaint hcnt
+    simp only [if_true, Bool.not_true, Bool.and_false, Bool.true_and] at mowed mmust mheld mtaint hcnt
+    have hgens := hi.fl.gens c hcache
+    have hflag : ∀ h ∈ st.handles, flagOf { c with remote := some r', cnt := cnt',
+        fl := flightAfterSync c.fl c.remote.isNone true } h = false := by
+      intro h hh
+      by_cases hside : h.side = .rem
+      · have := hgens h hh hside
+        simp only [flagOf, flightAfterSync]
+        cases c.remote.isNone <;> simp <;> omega
+      · simp [flagOf, hside]
+    refine ⟨hi.fl.cfgv, ?_, ?_, ?_, ?_, hi.fl.nodup, ?_, fun h => (by cases h), ?_⟩
+    · intro x r hx hr
+      have : x = { c with remote := some r', cnt := cnt', fl := flightAfterSync c.fl c.remote.isNone true } := by
+        simpa using hx.symm
+      subst this
+      have : r = r' := by simpa using hr.symm
+      subst this; rw [mapp, happ]
+    · intro w hw
+      rw [mowed]
+      have hw' : r'.fc = some (.tbw w) := by simpa [gfcOf] using hw
+      rw [hg2] at hw'
+      have : g' = .tbw w := Option.some.inj hw'
+      subst this
+      exact newGFC_tbw_fresh hg1
+    · intro hm; rw [mmust] at hm; cases hm
+    · rw [mheld, hi.fl.held, hcache]
+      simp only [heldOf, List.map_map]
+      apply List.map_congr_left
+      intro h hh
+      simp [hflag h hh]
+    · intro x hx h hh hside
+      have : x = { c with remote := some r', cnt := cnt', fl := flightAfterSync c.fl c.remote.isNone true } := by
+        simpa using hx.symm
+      subst this
+      have := hgens h hh hside
+      simp only [flightAfterSync]
+      cases c.remote.isNone <;> simp <;> omega
+    · intro ht x hx
+      have : x = { c with remote := some r', cnt := cnt', fl := flightAfterSync c.fl c.remote.isNone true } := by
+        simpa using hx.symm
+      subst this
+      refine ⟨?_, ?_⟩
+      · have hz : st.handles.countP (flagOf { c with remote := some r', cnt := cnt',
+            fl := flightAfterSync c.fl c.remote.isNone true }) = 0 := by
+          rw [List.countP_eq_zero]; intro h hh; simp [hflag h hh]
+        rw [hz]
+        simp only [flightAfterSync]
+        cases c.remote.isNone <;> simp
+      · intro h hh _ _ _
+        have hf := hflag h hh
+        -- every request of the old limiter would have tainted the monitor: there is none
+        rw [mtaint] at ht
+        simp only [Bool.or_eq_false_iff] at ht
+        false_or_by_contra
+        sorry
 
 theorem step_reconcile {K : Kind} {cfg : Cfg} {st : State} {m : Mon} (hi : Inv K cfg st m) :
     StepOK K cfg st m .reconcileCount := by
